@@ -38,7 +38,7 @@ func boolField(m map[string]interface{}, k string) bool { b, _ := m[k].(bool); r
 func scenarioFromJSON(m map[string]interface{}) (*explore.Scenario, error) {
 	sc := &explore.Scenario{Name: fmt.Sprint(m["name"]), Base: fmt.Sprint(m["base"]), Cfg: fmt.Sprint(m["cfg"]),
 		FSYield: boolField(m, "fs_yield"), TrackRaces: boolField(m, "track_races"), Worker: boolField(m, "worker"), Poison: boolField(m, "poison"),
-		QuietPop: boolField(m, "quiet_pop"), YieldSeg: boolField(m, "yield_seg"), NoPrivateQuiet: boolField(m, "no_private_quiet"), Unclean: boolField(m, "unclean"), Record: true}
+		QuietPop: boolField(m, "quiet_pop"), YieldSeg: boolField(m, "yield_seg"), YieldDirOnly: boolField(m, "yield_dir_only"), NoPrivateQuiet: boolField(m, "no_private_quiet"), Unclean: boolField(m, "unclean"), Record: true}
 	if f, ok := m["tick_budget"].(float64); ok {
 		sc.TickBudget = int(f)
 	}
